@@ -349,5 +349,6 @@ func Run(r *vh.Run) {
 			r.Add(c)
 		}
 	}
+	r.Add(goldenCase())
 	_ = chainx.AllKinds
 }
